@@ -5085,6 +5085,7 @@ class Entity(object, metaclass=EntityMeta):
             wbits = obj._wbits_
             get_val = obj._vals_.get
             objects_to_save = cache.objects_to_save
+            avdict_is_not_empty = bool(avdict)
             if avdict:
                 if any(attr not in obj._vals_ and attr.reverse and obj._bits_[attr] for attr in avdict):
                     obj._load_()
@@ -5119,7 +5120,7 @@ class Entity(object, metaclass=EntityMeta):
             def undo_func():
                 obj._status_ = status
                 obj._wbits_ = wbits
-                if status in ('loaded', 'inserted', 'updated'):
+                if avdict_is_not_empty and wbits is not None and status in ('loaded', 'inserted', 'updated'):
                     assert objects_to_save
                     obj2 = objects_to_save.pop()
                     assert obj2 is obj and obj._save_pos_ == len(objects_to_save)
@@ -5148,7 +5149,8 @@ class Entity(object, metaclass=EntityMeta):
                 for attr, new_val in collection_avdict.items():
                     attr.__set__(obj, new_val, undo_funcs)
             except:
-                for undo_func in undo_funcs: undo_func()
+                for func in reversed(undo_funcs): func()
+                undo_func()
                 raise
         obj._vals_.update(avdict)
     def _keyargs_to_avdicts_(obj, kwargs):
